@@ -19,8 +19,8 @@ from driver import run_batch
 from wire import to_wire, canon, exc_class
 from props.common import scale, depth_of, schema_tags
 
-THEOREMS = ["c20_generated_conforms", "c20_exact_count"]
-TARGETS = ["Properties.C20"]
+THEOREMS = ["c20_generated_conforms", "c20_exact_count", "Tables.generate_ranges"]
+TARGETS = ["Properties.TablesGenerate", "Properties.C20"]
 
 
 def recursion_kind(s):
@@ -167,6 +167,70 @@ def run(tier, seed):
             run.cov["evaluations"] += 1
         except Exception:
             pass
+    # ---- extreme states of the random source: randint returns the lowest / the highest value of its range
+    import fastavro.utils as _fu
+
+    class _Extreme:
+        def __init__(self, high):
+            self.high = high
+
+        def randint(self, a, b):
+            return b if self.high else a
+
+        def __getattr__(self, name):
+            return getattr(random, name)
+    LOGICALS = [{"type": "int", "logicalType": "date"}, {"type": "int", "logicalType": "time-millis"},
+                {"type": "long", "logicalType": "time-micros"}, {"type": "long", "logicalType": "timestamp-millis"},
+                {"type": "long", "logicalType": "timestamp-micros"}, {"type": "long", "logicalType": "local-timestamp-millis"},
+                {"type": "long", "logicalType": "local-timestamp-micros"}, "int", "long",
+                {"type": "enum", "name": "E", "symbols": ["A", "B", "C"]}, ["null", "int", "string"]]
+    for sch in LOGICALS:
+        for high in (False, True):
+            saved = _fu.random
+            _fu.random = _Extreme(high)
+            try:
+                v = generate_one(copy.deepcopy(sch))
+            except Exception as e:  # noqa
+                v = e
+            finally:
+                _fu.random = saved
+            run.cov["evaluations"] += 1
+            run.tag("extreme-random-state")
+            c2 = {"schema": sch, "random_source": "randint returns the %s end of its range" % ("high" if high else "low"), "tags": ["extreme"]}
+            if isinstance(v, Exception):
+                run.fail(dict(c2, error=repr(v)[:200]), "generate_one raises %s in an extreme state of the random source" % exc_class(v), kind="oracle")
+                continue
+            try:
+                ok = validate(v, copy.deepcopy(sch), raise_errors=False)
+                fo = io.BytesIO()
+                schemaless_writer(fo, copy.deepcopy(sch), v)
+                schemaless_reader(io.BytesIO(fo.getvalue()), copy.deepcopy(sch))
+            except Exception as e:  # noqa
+                ok = "raises " + exc_class(e) + ": " + repr(e)[:80]
+            if ok is not True:
+                run.fail(dict(c2, value=repr(v)), "a value generated in an extreme state of the random source does not validate / "
+                         "cannot be written and read back (%s)" % ok, kind="oracle")
+    # ---- the same schema object, modified in place between calls: every value must conform to the schema
+    # as it is at the time of the call
+    for h in range(scale(tier, 60)):
+        rr = random.Random(seed * 424243 + h)
+        obj = {"type": "record", "name": "Same", "fields": [{"name": "a", "type": rr.choice(["int", "string", "boolean"])}]}
+        for step in range(3):
+            try:
+                v = generate_one(obj)
+                ok = validate(v, copy.deepcopy(obj), raise_errors=False)
+            except Exception as e:  # noqa
+                ok = "raises " + exc_class(e)
+            run.cov["evaluations"] += 1
+            run.tag("same-object")
+            if ok is not True:
+                run.fail({"schema": copy.deepcopy(obj), "step": step, "tags": ["same-object"]},
+                         "a value generated for a schema object modified in place does not conform to its current content (%s)" % ok,
+                         kind="oracle")
+                break
+            f = rr.choice(obj["fields"])
+            f["type"] = rr.choice([t for t in ("int", "string", "boolean", "long", "double", "bytes") if t != f["type"]])
+            obj["fields"].append({"name": "n%d" % step, "type": rr.choice(["int", "string"])})
     img = run_batch([dict(q, op="gen.image") for q in reqs]) if reqs else []
     cf = run_batch([dict(q, op="spec.conforms") for q in reqs]) if reqs else []
     for c2, a, b in zip(meta, img, cf):
